@@ -564,6 +564,236 @@ def serial_cases(payload):
 
 
 # ----------------------------------------------------------------------------------------------------
+# Round trips INSIDE one PersistenceContextVars().run(...): the per-context memo tables of from_simple are live
+# across the whole batch; batches contain colliding memo keys on purpose
+# ----------------------------------------------------------------------------------------------------
+
+CONV_SC = ["DataFrame", "ArrowAstropy", "ArrowTable"]   # mutually convertible (overrideStorageClass accepts them)
+
+
+def _diff_dt(o, g, prefix=""):
+    d = []
+    if g.name != o.name:
+        d.append(prefix + "name")
+    if g.storageClass_name != o.storageClass_name:
+        d.append(prefix + "storageClass")
+    if list(g.dimensions.names) != list(o.dimensions.names):
+        d.append(prefix + "dimensions")
+    if g.isCalibration() != o.isCalibration():
+        d.append(prefix + "isCalibration")
+    if g._parentStorageClassName != o._parentStorageClassName:
+        d.append(prefix + "parentStorageClass")
+    if not d and not (g == o and o == g and hash(g) == hash(o)):
+        d.append(prefix + "eq-or-hash")
+    return d
+
+
+def _diff_coord(o, g):
+    """which documented aspect of the data ID that came back differs from the original"""
+    d = []
+    elems = list(o.dimensions.elements)
+    if list(g.dimensions.names) != list(o.dimensions.names) or not (g == o and o == g):
+        d.append("values")
+    elif hash(g) != hash(o):
+        d.append("hash")
+    if g.hasFull() != o.hasFull():
+        d.append("hasFull")
+    elif g.hasFull() and "values" not in d and dict(g.mapping) != dict(o.mapping):
+        d.append("implied")
+    if g.hasRecords() != o.hasRecords():
+        d.append("hasRecords")
+    elif g.hasRecords() and "values" not in d:
+        for k in elems:
+            sg, so = rec_state(g, k), rec_state(o, k)
+            if sg != so or (sg == 0 and not (g.records[k] == o.records[k])):
+                d.append("records")
+                break
+    return d
+
+
+def _ctx_obs(kind, o, g):
+    """observations on one object read back inside the context (computed after the context is left)"""
+    from lsst.daf.butler import DataCoordinate, DatasetRef, DatasetType, DimensionRecord
+    if isinstance(g, Exception):
+        return {"exc": _exc(g), "msg": str(g)[:200], "diff": ["raised"], "wout": None}
+    out = {}
+    if kind == "dt":
+        if not isinstance(g, DatasetType):
+            return {"diff": ["type"], "wout": None}
+        out["diff"] = _diff_dt(o, g)
+        out["wout"] = _wire(g.to_json())
+    elif kind == "coord":
+        if not isinstance(g, DataCoordinate):
+            return {"diff": ["type"], "wout": None}
+        out["diff"] = _diff_coord(o, g)
+        out["wout"] = _wire(g.to_json())
+        out["state"] = {"full": g.hasFull(), "recs": g.hasRecords(),
+                        "states": [[k, rec_state(g, k)] for k in g.dimensions.elements] if g.hasRecords() else [[k, 2] for k in g.dimensions.elements]}
+    elif kind == "rec":
+        if not isinstance(g, DimensionRecord):
+            return {"diff": ["type"], "wout": None}
+        d = []
+        if type(g) is not type(o) or not (g == o and o == g) or hash(g) != hash(o):
+            d.append("eq-or-hash")
+        elif not all(getattr(g, n) == getattr(o, n) for n in o.__slots__):
+            d.append("fields")
+        out["diff"] = d
+        out["wout"] = _wire(g.to_json())
+    elif kind == "ref":
+        if not isinstance(g, DatasetRef):
+            return {"diff": ["type"], "wout": None}
+        d = []
+        if g.id != o.id:
+            d.append("id")
+        if g.run != o.run:
+            d.append("run")
+        d += _diff_dt(o.datasetType, g.datasetType, "datasetType.")
+        if _diff_coord(o.dataId, g.dataId):
+            d.append("dataId")
+        if not d and not (g == o and o == g and hash(g) == hash(o)):
+            d.append("eq-or-hash")
+        out["diff"] = d
+        out["wout"] = _wire(g.to_json())
+        c = g.dataId
+        out["state"] = {"full": c.hasFull(), "recs": c.hasRecords(),
+                        "states": [[k, rec_state(c, k)] for k in c.dimensions.elements] if c.hasRecords() else [[k, 2] for k in c.dimensions.elements]}
+    return out
+
+
+def _abs_any(kind, o):
+    return {"dt": abs_dt, "coord": abs_coord, "rec": abs_record, "ref": abs_ref}[kind](o)
+
+
+def _run_in_context(u, items):
+    """items: [(kind, original)] -> [(kind, original, json, result-or-exception)]; ONE context for the whole list"""
+    from lsst.daf.butler import DataCoordinate, DatasetRef, DatasetType, DimensionRecord
+    from lsst.daf.butler.persistence_context import PersistenceContextVars
+    cls = {"dt": DatasetType, "coord": DataCoordinate, "rec": DimensionRecord, "ref": DatasetRef}
+    ser = [(k, o, o.to_json()) for k, o in items]          # written outside the context
+
+    def read_all():
+        res = []
+        for k, o, s in ser:
+            try:
+                res.append(cls[k].from_json(s, universe=u))
+            except Exception as e:  # noqa: BLE001
+                res.append(e)
+        return res
+
+    got = PersistenceContextVars().run(read_all)
+    return [(k, o, s, g) for (k, o, s), g in zip(ser, got)]
+
+
+def _ctx_batch(gen):
+    """the four per-kind item lists of one batch, with colliding memo keys"""
+    from lsst.daf.butler import DataCoordinate, DatasetRef, DatasetType
+    r, u = gen.r, gen.u
+    g1 = gen.group()
+    while not g1 or not g1.implied:
+        g1 = gen.group()
+    g2 = gen.group()
+    while not g2 or g2 == g1:
+        g2 = gen.group()
+    name = r.choice(["bias", "flat", "calexp", "raw_2", "_x", "src"]) + r.choice(["", "_b", "9"])
+    sc1, sc2 = r.sample(["StructuredDataDict", "Wcs", "Catalog", "Exposure", "ExposureF", "DataFrame"], 2)
+    comp = r.choice(["wcs", "psf", "image", "metadata"])
+    # -- dataset types: same name / other storage class (must be distinct objects), same (name, sc) / other dimensions,
+    #    calibration flag, parent storage class; duplicates; another name
+    dts = [DatasetType(name, g1, sc1), DatasetType(name, g1, sc2), DatasetType(name, g2, sc1),
+           DatasetType(name, g1, sc1, isCalibration=True),
+           DatasetType(f"{name}.{comp}", g1, gen._compsc("Exposure", comp), parentStorageClass="Exposure"),
+           DatasetType(f"{name}.{comp}", g1, gen._compsc("ExposureF", comp), parentStorageClass="ExposureF"),
+           DatasetType(name + "_o", g2, sc1), DatasetType(name, g1, sc1), DatasetType(name, g1, sc2)]
+    r.shuffle(dts)
+    # -- data IDs over g1: full / other implied value / required only / expanded with two different record sets /
+    #    expanded with a None record / duplicate / other required values
+    v = gen.data_id_values(g1)
+
+    def full(vals):
+        return DataCoordinate.from_full_values(g1, tuple(vals[k] for k in g1.data_coordinate_keys))
+    v_imp = dict(v)
+    k_imp = r.choice(list(g1.implied))
+    for _ in range(20):
+        v_imp[k_imp] = gen.value_for(k_imp)
+        if v_imp[k_imp] != v[k_imp]:
+            break
+    v2 = dict(v)
+    k_req = r.choice(list(g1.required))
+    for _ in range(20):
+        v2[k_req] = gen.value_for(k_req)
+        if v2[k_req] != v[k_req]:
+            break
+    c0, c7 = full(v), full(v2)
+    recs1 = gen.records_for(g1, v, 0.0)
+    recs2 = gen.records_for(g1, v, 0.0)
+    recs3 = dict(recs1)
+    nondim = [e for e in g1.elements if e not in u.dimensions.names]
+    if nondim:
+        recs3[r.choice(nondim)] = None
+    c3 = c0.expanded(recs1)
+    coords = [c0, full(v_imp), DataCoordinate.from_required_values(g1, tuple(v[k] for k in g1.required)),
+              c3, c0.expanded(recs2), c0.expanded(recs3), full(v), c7]
+    r.shuffle(coords)
+    # -- records: the same key fields with other payload fields, a duplicate
+    el = u[r.choice(list(g1.elements))]
+    rec0 = gen.record(el, v)
+    recs = [rec0, gen.record(el, v), rec0, gen.record(el, v2)]
+    r.shuffle(recs)
+    # -- refs: in this list (name, storage class) determines the type and the data ID values determine the data ID (the
+    #    tables nested inside DatasetRef.from_simple stay consistent); the collisions are on the ref id
+    nr = name + "_r"
+    sa, sb = r.sample(CONV_SC, 2)
+    ta, tb = DatasetType(nr, g1, sa), DatasetType(nr, g1, sb)
+    tc = DatasetType(f"{nr}c.{comp}", g1, gen._compsc("Exposure", comp), parentStorageClass="Exposure")
+    tp = tc.makeCompositeDatasetType()
+    ids = [uuid.UUID(int=r.getrandbits(128)) for _ in range(4)]
+    refs = [DatasetRef(ta, c0, run="run1", id=ids[0]), DatasetRef(tb, c0, run="run1", id=ids[1]),
+            DatasetRef(ta, c0, run="run2", id=ids[0]), DatasetRef(ta, c7, run="run1", id=ids[0]),
+            DatasetRef(tb, c0, run="run1", id=ids[0]), DatasetRef(tc, c0, run="run1", id=ids[2]),
+            DatasetRef(tp, c0, run="run1", id=ids[2]), DatasetRef(ta, c3, run="u/x", id=ids[3]),
+            DatasetRef(ta, c0, run="run1", id=ids[0])]
+    r.shuffle(refs)
+    return {"dt": dts, "coord": coords, "rec": recs, "ref": refs}, [g1, g2]
+
+
+def context_cases(payload):
+    """payload: {seed, n}: n batches; each batch = four per-kind contexts (compared with the memo-table model) and one
+    mixed context holding everything (oracle only)"""
+    gen = Gen(payload["seed"])
+    u = gen.u
+    out = []
+    for b in range(payload["n"]):
+        try:
+            lists, groups = _ctx_batch(gen)
+        except Exception as e:  # noqa: BLE001
+            import traceback
+            out.append({"kind": "gen", "gen_exc": f"{_exc(e)}: {e}"[:300], "tb": traceback.format_exc()[-600:], "items": []})
+            continue
+        ctxd = abs_ctx(gen, groups)
+        for kind, objs in lists.items():
+            res = _run_in_context(u, [(kind, o) for o in objs])
+            items = []
+            for k, o, s, g in res:
+                it = {"kind": k, "inst": _abs_any(k, o), "win": _wire(s)}
+                it.update(_try(lambda: _ctx_obs(k, o, g)))
+                it.setdefault("diff", ["observation-raised"])
+                items.append(it)
+            out.append({"kind": kind, "batch": b, "seed": payload["seed"], "ctx": ctxd, "items": items})
+        mixed = [(k, o) for k, objs in lists.items() for o in objs]
+        gen.r.shuffle(mixed)
+        res = _run_in_context(u, mixed)
+        items = []
+        for k, o, s, g in res:
+            it = {"kind": k, "inst": _abs_any(k, o), "win": _wire(s)}
+            it.update(_try(lambda: _ctx_obs(k, o, g)))
+            it.setdefault("diff", ["observation-raised"])
+            it.pop("wout", None)
+            items.append(it)
+        out.append({"kind": "mixed", "batch": b, "seed": payload["seed"], "items": items})
+    return out
+
+
+# ----------------------------------------------------------------------------------------------------
 # Config
 # ----------------------------------------------------------------------------------------------------
 
